@@ -6,6 +6,11 @@ From PG Require Import Lib.Str Model.ZipChain Gen.ZipReal Proofs.C16Chain.
 
 Definition repo_guards : bool := guards vfszip_subclasses_vfs_real repo_tests.
 
+(* `if not vfs:` (handlers/base.py) is modelled as `vfs is None`: true as long as no VFS class gives its
+   instances a length or a truth value (an archive without members would count as "no vfs given") *)
+Definition repo_vfs_truthiness_ok : bool :=
+  negb vfs_defines_len_or_bool || Nat.eqb vfs_truthiness_sites 0.
+
 Theorem C16_real_only_repo :
   repo_guards = true ->
   forall secure other hs h,
